@@ -16,10 +16,18 @@
    the wire; on a socket shared by two concurrent sends it does not (C07_shared_socket_interleaving_refuted).
    The interleavings themselves are exercised on the implementation (harness/c07.py steps two pool jobs
    frame by frame) and the log of all frame sends of every trace is checked against (6) inside Coq.
+   Likewise the model's shared-memory store is looked at and changed in ONE step per call (allocate with the conflict
+   rule, get, purge), while the real cascade.shm.client talks to a single-threaded server over datagrams and the
+   server may answer as late as it likes.  Net/ShmRpc.v is the datagram-level model this rests on, theorems (7):
+   a client that sends its request once and waits for the answer has it applied exactly once and is handed the
+   answer of that application, so `conflict` means that ANOTHER call made the entry; a client that gives up waiting
+   and asks again does not (C07_resending_client_refuted).  The implementation's real client runs against a fake
+   datagram socket and a slow fake server in harness/c07.py, and the log of all datagram events of every trace is
+   checked against (7) inside Coq.
    `content d` = (bytes, deser_fun) that the producing worker serialised for dataset d. *)
 From Coq Require Import List NArith ZArith String Bool.
-From EKW Require Import Net.DataServer Net.DataServerProofs Net.Multipart Net.MultipartProofs.
-From EKW Require Net.DataServerCheck Net.MultipartCheck.   (* not used here: keeps the correspondence checkers' .vo in step with the model *)
+From EKW Require Import Net.DataServer Net.DataServerProofs Net.Multipart Net.MultipartProofs Net.ShmRpc Net.ShmRpcProofs.
+From EKW Require Net.DataServerCheck Net.MultipartCheck Net.ShmRpcCheck.   (* not used here: keeps the correspondence checkers' .vo in step with the model *)
 Import ListNotations.
 Open Scope list_scope.
 
@@ -150,6 +158,47 @@ Theorem C07_shared_socket_interleaving_refuted :
   wire_ok garbling_log = false.
 Proof. exact shared_socket_garbles. Qed.
 
+(* (7) the atomicity of a call to the shm server, datagram by datagram.  `log` is any sequence of datagram events between
+   the clients of one host (its two pool threads, the loop, workers) and its shm server: a socket sends a request, the
+   server -- one thread, as slow as it likes -- takes the oldest request and answers it, a recv returns a datagram or
+   gives up, a socket is closed; nothing is lost or duplicated.  `ss_bad` is raised by a socket that does not keep to
+   "send one request, wait for one answer": a second request while one is unanswered, a recv that gives up, a close
+   with a request outstanding.  As long as no socket does that, what the server applied for a socket is exactly what
+   that socket's client completed -- same requests, same answers, same order -- plus at most the one request it is
+   still waiting for (then applied at most once, its answer waiting in the socket): every call is applied once, and
+   its caller gets the answer of that application ... *)
+Theorem C07_shm_call_applied_exactly_once : forall log st, srun ss0 log = Ok st -> ss_bad st = false ->
+  forall s, exists pend, hon s (ss_hist st) = hon s (ss_calls st) ++ pend /\
+    match ss_out st s with
+    | None => pend = []
+    | Some r => pend = [] \/ exists p, pend = [(s, r, p)] /\ ss_rx st s = [p]
+    end.
+Proof. exact disciplined_client_exactly_once. Qed.
+
+(* ... and an allocate is answered `conflict` only when an earlier application of an allocate made the entry (and was
+   answered with the segment): by (7a) the call of somebody else, who writes and closes it -- what store_payload
+   assumes when it treats the conflict as "dataset already present" *)
+Theorem C07_conflict_means_made_by_another_request : forall log st, srun ss0 log = Ok st ->
+  forall h1 h2 s k l z, ss_hist st = h1 ++ (s, RAlloc k l z, PConflict) :: h2 ->
+    exists s' l' z', In (s', RAlloc k l' z', PShm k) h1.
+Proof. exact conflict_means_made_by_another_request. Qed.
+
+(* The discipline is needed: a client that waits only so long for the answer and then asks again, with a server that
+   is slower than that (nothing lost), has its ONE allocate applied twice; it is told `conflict` about the entry its own
+   first request made, the segment was handed to nobody, the entry stays `created` whatever is asked later: the
+   dataset never arrives, is never announced, and every later get waits.  (Refutation of "an shm call is atomic"
+   without the discipline; the harness reports such a log of the implementation as a disagreement and the transfer as
+   transfer-not-completed.) *)
+Theorem C07_resending_client_refuted :
+  let k := 7%N in
+  (exists st, srun ss0 (resend_log k) = Ok st) /\ disciplined (resend_log k) = false /\
+  ss_hist (final k) = [(1%N, RAlloc k 3 0, PShm k); (2%N, RAlloc k 3 0, PConflict)] /\
+  ss_calls (final k) = [(2%N, RAlloc k 3 0, PConflict)] /\
+  lookup N.eq_dec k (ss_tab (final k)) = Some (mkE false 3 0 [] false) /\
+  (forall n seg, handle (ss_tab (final k)) n seg (RGet k) = (ss_tab (final k), n, PWait)) /\
+  (forall n seg l z, handle (ss_tab (final k)) n seg (RAlloc k l z) = (ss_tab (final k), n, PConflict)).
+Proof. exact resending_client_refuted. Qed.
+
 (* ------------------------------------------------------------------ non-vacuity *)
 (* host 1 holds dataset 0; the controller commands two transfers 1 -> 2 of it (idx 7 and, redundantly, 8);
    the first payload is duplicated and one copy lost; host 2 stores and announces it; the second payload is
@@ -258,6 +307,25 @@ Example C07_private_sockets_wire_ok_nonvacuous :
   snd (wrun w0 private_log) = [whole 7 (1%N, 2%nat); whole 8 (2%N, 2%nat)].
 Proof. exact private_log_whole. Qed.
 
+(* two store jobs for dataset 5 (the same transfer commanded twice) and a worker publishing dataset 6 talk to a slow shm
+   server at the same time: the first store's allocate is answered only after the second one's has arrived too; the second
+   is told `conflict`; the first writes, closes and -- later -- a send job gets the dataset: every socket keeps to the
+   discipline, every call was applied once *)
+Definition ex_rpc : list lev := [
+  LSend 1 (RAlloc 5 3 0); LSend 2 (RAlloc 5 3 0); LSend 3 (RAlloc 6 1 1);
+  LHandle false (PShm 5); LHandle false PConflict; LRecv 2 PConflict; LClose 2; LRecv 1 (PShm 5); LClose 1;
+  LHandle false (PShm 6); LSend 4 (RClose 5 0); LRecv 3 (PShm 6); LHandle false POk; LRecv 4 POk; LClose 4; LClose 3;
+  LSend 5 (RGet 5); LHandle false (PGot 5 1 3 0); LRecv 5 (PGot 5 1 3 0); LSend 5 (RClose 5 1)
+].
+Example C07_shm_call_applied_exactly_once_nonvacuous :
+  let st := match srun ss0 ex_rpc with Ok st => st | Err _ => ss0 end in
+  (exists st', srun ss0 ex_rpc = Ok st') /\ ss_bad st = false /\
+  hon 2 (ss_hist st) = [(2%N, RAlloc 5 3 0, PConflict)] /\ hon 2 (ss_calls st) = [(2%N, RAlloc 5 3 0, PConflict)] /\
+  hon 5 (ss_hist st) = [(5%N, RGet 5, PGot 5 1 3 0)] /\ ss_out st 5%N = Some (RClose 5 1) /\
+  ss_hist st = [(1%N, RAlloc 5 3 0, PShm 5)] ++ (2%N, RAlloc 5 3 0, PConflict) ::
+               [(3%N, RAlloc 6 1 1, PShm 6); (4%N, RClose 5 0, POk); (5%N, RGet 5, PGot 5 1 3 0)].
+Proof. split; [eexists; vm_compute; reflexivity|]. vm_compute. repeat split; reflexivity. Qed.
+
 Print Assumptions C07_stored_bytes_equal.
 Print Assumptions C07_inflight_bytes_equal.
 Print Assumptions C07_fetch_bytes_equal.
@@ -273,3 +341,6 @@ Print Assumptions C07_uninterleaved_sends_are_atomic.
 Print Assumptions C07_uninterleaved_wire_ok.
 Print Assumptions C07_private_sockets_wire_ok.
 Print Assumptions C07_shared_socket_interleaving_refuted.
+Print Assumptions C07_shm_call_applied_exactly_once.
+Print Assumptions C07_conflict_means_made_by_another_request.
+Print Assumptions C07_resending_client_refuted.
